@@ -576,7 +576,7 @@ func (x *Exec) frameObligations(fr *Frame, c *Contract, out *State, env *Env) {
 		t := x.s.heapT[k]
 		o := x.heapGet(out, k, t)
 		e := x.heapGet(entry, k, t)
-		if o == e || exempt[k] {
+		if o == e || exempt[k] || isRangeCountKey(k) {
 			continue
 		}
 		a := x.heapGet(allowed, k, t)
